@@ -380,11 +380,14 @@ class StatementInserter(ast.NodeTransformer, EmitterMixin):
     def _is_docstring_stmt(
         self, node: ast.AST, field_name: str, inner_node: ast.stmt
     ) -> bool:
-        if field_name != "body" or not isinstance(
-            node, (ast.FunctionDef, ast.AsyncFunctionDef)
-        ):
+        if field_name != "body":
             return False
-        body, _ = strip_globals_and_nonlocals(node.body)
+        if isinstance(node, (ast.FunctionDef, ast.AsyncFunctionDef)):
+            body, _ = strip_globals_and_nonlocals(node.body)
+        elif isinstance(node, (ast.ClassDef, ast.Module)):
+            body = node.body
+        else:
+            return False
         if len(body) == 0 or body[0] is not inner_node:
             return False
         # look at the pristine copy: the expression rewriter may already have wrapped the constant
@@ -401,6 +404,9 @@ class StatementInserter(ast.NodeTransformer, EmitterMixin):
             return stmts_to_extend
         if self._is_docstring_stmt(node, field_name, inner_node):
             # _handle_function_body sets the docstring aside as exactly one statement: emit no events around it
+            if isinstance(node, (ast.ClassDef, ast.Module)):
+                # nothing rebuilds a class or module body later: keep the statement pristine, so that __doc__ survives
+                return [fast.copy_ast(self.orig_to_copy_mapping[id(inner_node)])]
             return [inner_node]
         stmt_copy = cast(ast.stmt, self.orig_to_copy_mapping[id(inner_node)])
         main_and_maybe_after = self._make_main_and_after_stmt_stmts(
@@ -451,6 +457,7 @@ class StatementInserter(ast.NodeTransformer, EmitterMixin):
             elif isinstance(field, list):
                 new_field = []
                 future_imports = []
+                module_docstring = []
                 if isinstance(node, ast.Module) and name == "body":
                     node_copy = self.get_copy_node(node)
                     if self.handler_predicate_by_event[TraceEvent.init_module](
@@ -470,13 +477,20 @@ class StatementInserter(ast.NodeTransformer, EmitterMixin):
                             and inner_node.module == "__future__"
                         ):
                             future_imports.append(inner_node)
+                        elif isinstance(node, ast.Module) and self._is_docstring_stmt(
+                            node, name, inner_node
+                        ):
+                            # must stay the first statement of the module
+                            module_docstring.extend(
+                                self._handle_stmt(node, name, inner_node)
+                            )
                         else:
                             new_field.extend(self._handle_stmt(node, name, inner_node))
                     elif isinstance(inner_node, ast.AST):
                         new_field.append(self.visit(inner_node))
                     else:
                         new_field.append(inner_node)
-                new_field = future_imports + new_field
+                new_field = module_docstring + future_imports + new_field
                 if name == "body":
                     if isinstance(node, ast.Module):
                         new_field = self._handle_module_body(node, new_field)
